@@ -5,6 +5,7 @@
 package main
 
 import (
+	"errors"
 	"encoding/json"
 	"flag"
 	"fmt"
@@ -58,6 +59,19 @@ type Meta struct {
 	Samples     []any          `json:"samples"`
 	Files       []string       `json:"files"`
 	Cases       []CaseRec      `json:"cases"`
+	// cases on which the harness itself observed the implementation contradicting the documented
+	// contract (typed error, panic, ...): concrete property failures, no Coq term needed
+	ContractViolations []int `json:"contract_violations"`
+}
+
+// ImplViolation is returned by a Run function when the IMPLEMENTATION (not the harness) misbehaved on
+// this case in a way the harness can judge directly (documented typed error missing, panic, output
+// that cannot be represented).  The driver reports the case as a concrete failing input.
+type ImplViolation struct{ Msg string }
+
+func (e *ImplViolation) Error() string { return e.Msg }
+func implViolation(format string, a ...any) error {
+	return &ImplViolation{Msg: fmt.Sprintf(format, a...)}
 }
 
 type CaseRec struct {
@@ -146,6 +160,14 @@ func main() {
 	for i, c := range cases {
 		res, err := p.Run(c)
 		if err != nil {
+			var iv *ImplViolation
+			if errors.As(err, &iv) {
+				meta.Evaluations++
+				meta.Kinds[c.Kind]++
+				meta.ContractViolations = append(meta.ContractViolations, i)
+				meta.Cases = append(meta.Cases, CaseRec{ID: i, Case: c, Obs: map[string]any{"contract_violation": iv.Msg}})
+				continue
+			}
 			fmt.Fprintf(os.Stderr, "case %d: %v\n", i, err)
 			os.Exit(3)
 		}
